@@ -532,6 +532,10 @@ def build(tier):
              "    pub unsafe fn validate_unchecked(_: &[u8]) -> Result<(), flatty::Error> { Ok(()) }\n"
              "    pub unsafe fn from_bytes_unchecked(_: &[u8]) -> &Self { loop {} }\n"
              "    pub unsafe fn emplace_unchecked(self, _: &mut [u8]) -> Result<&mut Self, flatty::Error> { loop {} }\n"
+             "}\n"
+             "// ... and on the per-variant initialiser helper (also nameable)\n"
+             "impl HUEInitA {\n"
+             "    pub fn into(self) -> HUEInit<flatty::emplacer::NeverEmplacer, flatty::emplacer::NeverEmplacer, flatty::emplacer::NeverEmplacer> { loop {} }\n"
              "}\n")
     h_outer = D("HOuter", "struct", False, fields=[("id", U32), ("inner", h_ue.t)], default=True, extra=hij_all("HOuter"))
     # generic definitions (type and const parameters), each with two instantiations: the constants and rustc layouts of an instance
